@@ -16,7 +16,7 @@
    NOT PROVED: trailing_trivia, the statement/separator handlers' choice of region, indentation of moved blocks:
    decided by the token-stream oracle over random edit sequences in py/props/C04.py (partial). *)
 From Coq Require Import List NArith Bool Arith.
-From PF Require Import kernel.PyBase kernel.Text models.Trivia proofs.TextProofs proofs.TriviaProofs.
+From PF Require Import kernel.PyBase kernel.Text models.Trivia proofs.TextProofs proofs.TriviaProofs models.TriviaParams proofs.TriviaParamsProofs.
 Import ListNotations.
 
 Theorem C04_edit_is_one_local_splice : forall L P ln col eln ecol,
@@ -76,3 +76,24 @@ Example C04_nonvacuous :
   leading_trivia L 0 5 4 4 CBlock (SInt 1) = ((2, 0), Some 1, true) /\
   leading_trivia L 0 5 4 4 CNone SFalse = ((4, 4), Some 4, true).
 Proof. vm_compute. split; reflexivity. Qed.
+
+(* ---- how the `trivia` option is read (models/TriviaParams.v == fst_trivia.get_trivia_params, exhaustive correspondence) ---- *)
+Theorem C04_option_shorthand_is_default_kind : forall dflt neg x, side dflt neg (PStr None x) = side dflt neg (PStr (Some dflt) x).
+Proof. exact shorthand_is_default_kind. Qed.
+Print Assumptions C04_option_shorthand_is_default_kind.
+
+Theorem C04_option_sides_independent : forall neg l t t' l',
+  fst (params neg (OPair l t)) = fst (params neg (OPair l t')) /\ snd (params neg (OPair l t)) = snd (params neg (OPair l' t)).
+Proof. exact sides_independent. Qed.
+Print Assumptions C04_option_sides_independent.
+
+Theorem C04_option_trailing_default_selects_line_only : forall neg o,
+  (exists p, o = OOne p) \/ (exists l x, o = OPair l (PStr None x)) \/ (exists l, o = OPair l (PBool true)) \/ (exists x, o = OSingle (PStr None x)) ->
+  fst (fst (snd (params neg o))) = CKind KLine.
+Proof. exact trailing_default_selects_line_only. Qed.
+Print Assumptions C04_option_trailing_default_selects_line_only.
+
+Theorem C04_option_kind_independent_of_suffix : forall dflt neg k x y,
+  fst (fst (side dflt neg (PStr k x))) = fst (fst (side dflt neg (PStr k y))).
+Proof. exact kind_independent_of_suffix. Qed.
+Print Assumptions C04_option_kind_independent_of_suffix.
